@@ -323,7 +323,7 @@ func (b *binRun) run() {
 		if occupied >= 0 {
 			if held, err = net.Listen("tcp4", fmt.Sprintf("127.0.0.1:%d", b.k.Ports[occupied])); err != nil {
 				os.RemoveAll(b.k.Work)
-				if attempt < 3 {
+				if attempt < 9 {
 					continue
 				}
 				return
@@ -364,8 +364,14 @@ func (b *binRun) run() {
 		tail := b.logTail()
 		b.kill()
 		os.RemoveAll(b.k.Work)
-		if exited && attempt < 3 && strings.Contains(tail, "address already in use") {
-			continue // lost the race for a port
+		if exited && strings.Contains(tail, "address already in use") {
+			if attempt < 9 {
+				time.Sleep(time.Duration(50*(attempt+1)) * time.Millisecond)
+				continue // lost the race for a port to another program on this machine
+			}
+			c.Note("asm-bin %d: skipped — ten draws of ports were each taken by other programs before the binary could bind them", b.n)
+			c.H("bin:scenario-skipped-ports-busy")
+			return
 		}
 		b.fail("binary-starts-and-listens", fmt.Sprintf("15 s after start the three ports do not all accept connections (process exited: %v, code %d); log: %s", exited, b.code, tail))
 		return
